@@ -65,6 +65,8 @@ Beh(s) == CASE AllOutcomes -> {"success", "error", "alt", "err", "hang"}
             [] Family \in {"fan2", "fan3"} -> {"success", "hang"}
             [] OTHER -> {"success", "error", "err"}
 DeployMayFail(s) == AllOutcomes \/ Family \in {"single", "chain2"}
+\* the deployment succeeded but the plugin's schema cannot be read over the connection: the step fails to start (crashed)
+StartMayFail(s) == AllOutcomes \/ Family = "single"
 HasHandler(s) == TRUE
 
 \* step kinds and their lifecycles (tables as in Lifecycles.tla; "foreach" = a loop step over a sub-workflow, whose item
@@ -452,6 +454,8 @@ ReadSchema(s) == /\ Idle(s) /\ cont[s] = "readSchema"
                        /\ execStarted' = execStarted \cup {s}
                        /\ Go(s, <<Set("running", "running"), SC("started")>>, "awaitRes")
                     \/ /\ stepCtx[s] /\ Go(s, ClosedEarly("running", TRUE), "exit")
+                       /\ UNCHANGED <<wg, exec, execStarted>>
+                    \/ /\ StartMayFail(s) /\ Go(s, StartFailedScript, "exit")
                        /\ UNCHANGED <<wg, exec, execStarted>>
                  /\ UNCHANGED <<rl, stage, state, prevStage, slotD, slotE, slotR, stepCtx, closedFlag, conn, execRes, sigNil, sigQ, resQ>>
 TakeResult(s) == /\ resQ[s] # <<>> /\ resQ' = [resQ EXCEPT ![s] = Tail(@)]
